@@ -1,20 +1,271 @@
-//! Part B of C10: built-ins (table filled in below)
-use vcore::{Cfg, Cx, Finding, Value, Violation, json};
+//! Part B of C10: every built-in of the default runtime (table shared with
+//! C17: `c17::ops`; the list is checked against the runtime's generated
+//! documentation at start-up) on the cross product of per-parameter *edge*
+//! domains. The only oracle is that the worker process survives the call:
+//! no trap, no abort, no panic across the foreign-function boundary (a panic
+//! inside an `extern "C"` built-in aborts the process).
 
+use std::collections::HashMap;
+use std::net::IpAddr;
+use std::sync::{Arc, OnceLock};
+
+use c17::dom::*;
+use c17::ops::{self, Op, P};
+use c17::val::V;
+use c17::{doclint, plan};
+use vcore::{Cfg, Cx, Finding, SUB_SETUP, Value, Violation, json};
+
+/// One work unit: a built-in form, restricted to a contiguous range of its
+/// argument tuples (so that forms with many crashing cases are spread over
+/// several workers).
 pub struct Entry {
-    pub name: &'static str,
+    pub name: String,
+    op: usize,
+    lo: u64,
+    hi: u64,
+}
+
+const STRINGS: [&str; 6] = ["", "a", "é", "a\n", "\n", "𝄞b"];
+const IPS4: [&str; 4] = ["0.0.0.0", "1.1.1.1", "127.0.0.1", "255.255.255.255"];
+const IPS6: [&str; 4] = ["::", "::1", "::ffff:1.2.3.4", "ffff:ffff:ffff:ffff:ffff:ffff:ffff:ffff"];
+
+fn ips(v: &[&str]) -> Vec<IpAddr> {
+    v.iter().map(|s| s.parse().unwrap()).collect()
+}
+
+fn edge_strings() -> Vec<V> {
+    STRINGS.iter().map(|s| V::str(*s)).collect()
+}
+
+/// indices {0, 1, len-1, len, len+1} for every len that occurs (strings up to
+/// 5 bytes, lists up to 5 elements) = 0..=6, plus {2^32, 2^63, u64::MAX}
+fn edge_indices() -> Vec<V> {
+    ints((0..=6u64).chain(BIG).map(|x| x as i128))
+}
+
+fn edge_prefixes() -> Vec<V> {
+    let mut all = ips(&IPS4);
+    all.extend(ips(&IPS6));
+    prefixes(&all, |ip| {
+        if ip.is_ipv4() { vec![0, 1, 8, 31, 32] } else { vec![0, 1, 64, 127, 128] }
+    })
+}
+
+fn u64_lists() -> Vec<V> {
+    // lengths 0, 1, 4 (= first capacity), 5 (= after growing)
+    vec![
+        V::List(vec![]),
+        V::List(ints([7])),
+        V::List(ints([1, 2, 3, 5])),
+        V::List(ints([1, 2, 3, 5, u64::MAX as i128])),
+    ]
+}
+
+fn str_lists() -> Vec<V> {
+    vec![
+        V::List(vec![]),
+        V::strs(["a"]),
+        V::strs(["", "a", "é", "a\n"]),
+        V::strs(["", "a", "é", "a\n", "𝄞b"]),
+    ]
+}
+
+/// C10's edge domain of one parameter kind (the same in both tiers)
+fn domain(p: P) -> Vec<V> {
+    match p {
+        P::Recv | P::Str2 | P::BufStr | P::ElemStr => edge_strings(),
+        P::Idx | P::ListIdx => edge_indices(),
+        P::Rep => ints(0..=3),
+        P::SplitN => ints((0..=3u64).chain(BIG).map(|x| x as i128)),
+        P::U8 => ints(0..=u8::MAX as i128),
+        P::I8 => ints(i8::MIN as i128..=i8::MAX as i128),
+        P::U16 => wide_ints(0, u16::MAX as i128),
+        P::I16 => wide_ints(i16::MIN as i128, i16::MAX as i128),
+        P::U32 => wide_ints(0, u32::MAX as i128),
+        P::I32 => wide_ints(i32::MIN as i128, i32::MAX as i128),
+        P::U64 => wide_ints(0, u64::MAX as i128),
+        P::I64 => wide_ints(i64::MIN as i128, i64::MAX as i128),
+        P::F32 => f32_set(8),
+        P::F64 => f64_set(64),
+        P::F32Pow => f32_set(64),
+        P::F64Pow => f64_set(512),
+        P::Bool => vec![V::Bool(false), V::Bool(true)],
+        P::Char | P::BufChar => {
+            ['\0', 'a', '\n', 'é', '漢', '𝄞', '\u{d7ff}', '\u{e000}', '\u{10ffff}'].into_iter().map(V::Char).collect()
+        }
+        P::Asn => wide_ints(0, u32::MAX as i128).into_iter().map(|v| V::Asn(v.u() as u32)).collect(),
+        // operands of Prefix.new / `ip / len`: all-zeros and all-ones of each
+        // family (every length beyond the family's maximum kills a worker on
+        // this tree, so the address set is kept small)
+        P::Ip4 => ips(&[IPS4[0], IPS4[3]]).into_iter().map(V::Ip).collect(),
+        P::Ip6 => ips(&[IPS6[0], IPS6[3]]).into_iter().map(V::Ip).collect(),
+        P::Ip => ips(&IPS4).into_iter().chain(ips(&IPS6)).map(V::Ip).collect(),
+        // every u8 is a well-typed prefix length
+        P::Len4 | P::Len6 => ints(0..=255),
+        P::Pfx | P::PfxPair => edge_prefixes(),
+        P::CharList => {
+            let c = |s: &str| V::List(s.chars().map(V::Char).collect());
+            vec![c(""), c("a"), c("é"), c("aé漢𝄞"), c("a\n漢𝄞\0"), V::List(vec![V::Char('\u{10ffff}')])]
+        }
+        P::UnusedStr => vec![V::str("")],
+        P::UnusedChar => vec![V::Char('a')],
+        P::ListU64 => u64_lists(),
+        P::ListStr => str_lists(),
+        P::ElemU64 => ints([0, 1, 3, 5, u64::MAX as i128]),
+    }
+}
+
+struct Table {
+    ops: Vec<Op>,
+    doms: Vec<Vec<Vec<V>>>,
+    entries: Vec<(usize, u64, u64)>,
+}
+
+fn table() -> Arc<Table> {
+    static T: OnceLock<Arc<Table>> = OnceLock::new();
+    T.get_or_init(|| {
+        let ops = ops::ops();
+        let mut cache: HashMap<P, Vec<V>> = HashMap::new();
+        let mut doms = vec![];
+        let mut entries = vec![];
+        for (i, op) in ops.iter().enumerate() {
+            let d: Vec<Vec<V>> =
+                op.params.iter().map(|p| cache.entry(*p).or_insert_with(|| domain(*p)).clone()).collect();
+            // Prefix construction: small units (most lengths kill the
+            // worker on this tree; deaths within one unit are sequential)
+            let target = if op.name == "Prefix.new" { 32 } else { 200_000 };
+            for (lo, hi) in plan::sub_chunks(&d, target) {
+                entries.push((i, lo, hi));
+            }
+            doms.push(d);
+        }
+        Arc::new(Table { ops, doms, entries })
+    })
+    .clone()
 }
 
 pub fn entries() -> Vec<Entry> {
-    vec![]
+    let t = table();
+    t.entries
+        .iter()
+        .map(|(op, lo, hi)| Entry { name: t.ops[*op].label(), op: *op, lo: *lo, hi: *hi })
+        .collect()
 }
-pub fn run(_i: usize, _cx: &mut Cx) {}
-pub fn describe(_i: usize, _cfg: &Cfg, _sub: u64) -> Value {
-    json!(null)
+
+fn case(op: &Op, args: &[V]) -> Value {
+    let mut c = plan::case_json(op, args, "script");
+    // fields the known-finding predicate looks at
+    if op.name == "Prefix.new" {
+        if let (Some(V::Ip(ip)), Some(V::Int(len))) = (args.first(), args.get(1)) {
+            c["prefix_len"] = json!(*len as u64);
+            c["family_max_len"] = json!(if ip.is_ipv4() { 32 } else { 128 });
+        }
+    }
+    c
 }
-pub fn matches(_f: &Finding, _v: &Violation) -> bool {
-    false
+
+pub fn run(i: usize, cx: &mut Cx) {
+    let t = table();
+    let (opi, lo, hi) = t.entries[i];
+    let op = &t.ops[opi];
+    let doms = &t.doms[opi];
+    if !cx.case(SUB_SETUP) {
+        return;
+    }
+    let prep = match plan::prepare(op) {
+        Ok(p) => p,
+        Err((class, msg)) => {
+            cx.violation(
+                class,
+                SUB_SETUP,
+                json!({"kind": "setup", "builtin": op.name, "form": op.form, "script": op.script}),
+                json!("the script compiles and f is retrievable under the documented signature"),
+                json!(msg),
+            );
+            return;
+        }
+    };
+    cx.states(1);
+    cx.nontrivial(vcore::util::fnv_str(&format!("{}#{}", op.label(), op.script)));
+    let (mut s0, mut s1) = (lo, hi);
+    match cx.only() {
+        Some(SUB_SETUP) => return,
+        Some(o) => {
+            s0 = s0.max(o);
+            s1 = s1.min(o.saturating_add(1));
+        }
+        None => {}
+    }
+    let mut h = 0u64;
+    let mut n = 0u64;
+    let mut sampled = false;
+    for sub in s0..s1 {
+        let args = plan::args_at(doms, sub);
+        if !cx.case(sub) {
+            continue;
+        }
+        match vcore::util::catch(|| (prep.call)(&args)) {
+            Ok(v) => {
+                h = vcore::util::mix(h, v.hash());
+                if !sampled {
+                    sampled = true;
+                    cx.sample(json!({"builtin": op.name, "form": op.form, "script": op.script,
+                        "argument_tuples": plan::total(doms),
+                        "first": args.iter().map(|a| a.json()).collect::<Vec<_>>(), "returned": v.json()}));
+                }
+            }
+            Err(p) => {
+                cx.violation("panic", sub, case(op, &args), json!("the call returns"), json!(p));
+            }
+        }
+        n += 1;
+    }
+    cx.transitions(n);
+    cx.validated(n);
+    cx.outcome(h);
+    cx.count("builtin_calls", n);
 }
+
+pub fn describe(i: usize, _cfg: &Cfg, sub: u64) -> Value {
+    let t = table();
+    let (opi, _, _) = t.entries[i];
+    let op = &t.ops[opi];
+    if sub == SUB_SETUP {
+        return json!({"kind": "setup", "builtin": op.name, "form": op.form, "script": op.script});
+    }
+    let args = plan::args_at(&t.doms[opi], sub);
+    case(op, &args)
+}
+
+pub fn matches(f: &Finding, v: &Violation) -> bool {
+    let c = &v.case;
+    match f.matcher.as_str() {
+        // Prefix.new(ip, len) / `ip / len` with a length that does not fit
+        // the address family: `Prefix::new_relaxed(..).unwrap()` panics inside
+        // the extern "C" built-in and the process aborts
+        "prefix_new_len_out_of_range" => {
+            let ip: Option<IpAddr> = c["args"][0].as_str().and_then(|s| s.parse().ok());
+            let len: Option<u64> = c["args"][1].as_str().and_then(|s| s.parse().ok());
+            v.class.starts_with("signal:")
+                && c["kind"] == "builtin"
+                && c["builtin"] == "Prefix.new"
+                && matches!((ip, len), (Some(ip), Some(len)) if len > if ip.is_ipv4() { 32 } else { 128 })
+        }
+        _ => false,
+    }
+}
+
 pub fn preflight() -> Result<(), String> {
+    let t = table();
+    // every registered built-in (List methods included) has a table entry
+    let n = doclint::lint("c10", &t.ops, |_| true)?;
+    if n == 0 {
+        return Err("no built-ins found in the runtime's documentation".into());
+    }
+    for (op, d) in t.ops.iter().zip(&t.doms) {
+        if d.iter().any(|x| x.is_empty()) {
+            return Err(format!("built-in {} has an empty argument domain", op.label()));
+        }
+    }
     Ok(())
 }
